@@ -16,15 +16,16 @@ open SnowModel.History
 
 /-! #### arithmetic of `random_row_reference` -/
 
-/-- `min_id = self.local_counters.get(nickname, 0) + 1` is `minIdLocal` -/
+/-- `min_id = self.local_nickname_counters.get(nickname, 0) + 1` is `minIdLocal` -/
 theorem minIdNick_eq (loc : Nat) : Gen.RowHistory.minIdNick loc = (minIdLocal loc : Nat) := by
   simp [Gen.RowHistory.minIdNick, minIdLocal]
 /-- `min_id = self.local_counters.get(tablename, 0) + 1` is `minIdLocal` -/
 theorem minIdTable_eq (loc : Nat) : Gen.RowHistory.minIdTable loc = (minIdLocal loc : Nat) := by
   simp [Gen.RowHistory.minIdTable, minIdLocal]
-/-- both `current-iteration` branches read `local_counters`, keyed by the nickname / the table -/
+/-- the nickname branch reads `local_nickname_counters[nickname]` (`St.localNick`, fix 07a822a), the
+    table branch `local_counters[tablename]` (`St.localCtr`) -/
 theorem minId_sources :
-    Gen.RowHistory.minIdNickSrc = ["self.local_counters", "nickname"] ∧
+    Gen.RowHistory.minIdNickSrc = ["self.local_nickname_counters", "nickname"] ∧
     Gen.RowHistory.minIdTableSrc = ["self.local_counters", "tablename"] := ⟨rfl, rfl⟩
 /-- global scope starts at 1 -/
 theorem minIdGlobal_eq : Gen.RowHistory.minIdGlobal = 1 := rfl
@@ -79,13 +80,13 @@ theorem rowHistory_resultReturn : Gen.RowHistory.resultReturn =
   ["return LazyLoadedObjectReference(tablename, row_id, tablename)"] := rfl
 /-- `save_row` statements -/
 theorem rowHistory_saveRowBody : Gen.RowHistory.saveRowBody =
-  ["row_id = row['id']", "self.table_counters[tablename] = max(row_id, self.table_counters.get(tablename) or 0)", "if nickname:\n    nickname_id = self._get_nickname_id(tablename, nickname)\n    self.table_counters[nickname] = nickname_id\nelse:\n    nickname_id = None", "data = self.pickler.dumps(row)", "self.conn.execute(f'INSERT INTO \"{tablename}\" VALUES (?, ?, ?, ?)', (row_id, nickname, nickname_id, data))"] := rfl
+  ["row_id = row['id']", "self.table_counters[tablename] = max(row_id, self.table_counters.get(tablename) or 0)", "if nickname:\n    nickname_id = self._get_nickname_id(tablename, nickname)\nelse:\n    nickname_id = None", "data = self.pickler.dumps(row)", "self.conn.execute(f'INSERT INTO \"{tablename}\" VALUES (?, ?, ?, ?)', (row_id, nickname, nickname_id, data))"] := rfl
 /-- `_get_nickname_id` statements -/
 theorem rowHistory_getNicknameIdBody : Gen.RowHistory.getNicknameIdBody =
   ["self.nickname_counters[nickname] += 1", "return self.nickname_counters[nickname]"] := rfl
 /-- `reset_locals` statements -/
 theorem rowHistory_resetLocalsBody : Gen.RowHistory.resetLocalsBody =
-  ["self.local_counters = deepcopy(self.table_counters)"] := rfl
+  ["self.local_counters = deepcopy(self.table_counters)", "self.local_nickname_counters = dict(self.nickname_counters)"] := rfl
 /-- `RowHistory.__init__` statements -/
 theorem rowHistory_initBody : Gen.RowHistory.initBody =
   ["self.conn = sqlite3.connect('')", "self.table_counters = dict(table_counters)", "self.nickname_counters = defaultdict(int)", "self.reset_locals()", "self.nickname_to_tablename = {nick: table for nick, table in tablename_for_nickname.items() if table != nick}", "for table in tables_to_keep_history_for:\n    _make_history_table(self.conn, table)", "self.pickler = RestrictedPickler(_DISPATCH_TABLE, _SAFE_CLASSES)"] := rfl
